@@ -219,7 +219,7 @@ theorem usingDataset_below {s : St} (h : FreshInv s) (us nm : List Nat) :
     obtain ⟨g, _, rfl⟩ := he
     exact graphTriples_below h _ t ht
 
-theorem bbelow_solutions (c : Cfg) (u : Modify) {s : St} (h : FreshInv s) :
+theorem bbelow_solutions_bgp (c : Cfg) (u : Modify) (hna : ∀ n P, u.wmode ≠ .alg n P) {s : St} (h : FreshInv s) :
     ∀ μ ∈ u.solutions c s, BBelow s.next μ := by
   unfold Modify.solutions
   simp only
@@ -233,8 +233,11 @@ theorem bbelow_solutions (c : Cfg) (u : Modify) {s : St} (h : FreshInv s) :
   have hbag : ∀ μ ∈ (match u.wmode with
       | .plain => groupSols d u.where_
       | .union bs => groupSols d u.where_ ++ groupSols d bs
-      | .proj vs => (groupSols d u.where_).map (project vs)), BBelow s.next μ := by
-    cases u.wmode with
+      | .proj vs => (groupSols d u.where_).map (project vs)
+      | .alg n P => algSolutions (if u.using_.isEmpty && u.named.isEmpty then d else d.nonEmptyNamed) n P),
+      BBelow s.next μ := by
+    cases hw : u.wmode with
+    | alg n P => exact absurd hw (hna n P)
     | plain => exact bbelow_groupSols hd _
     | union bs =>
       intro μ hμ
@@ -248,6 +251,23 @@ theorem bbelow_solutions (c : Cfg) (u : Modify) {s : St} (h : FreshInv s) :
   cases u.flt with
   | none => exact hbag
   | some f => intro μ hμ; exact hbag μ (List.mem_filter.1 hμ).1
+
+/-- WHERE solutions of a full-algebra pattern (`WMode.alg`) only bind terms of the dataset, constants of the pattern and
+    booleans — none of them a node minted beyond the supply.  For the BGP modes this is PROVED below
+    (`bbelow_solutions`); for `WMode.alg` it is a property of the C04 evaluator model that is ASSUMED (a hypothesis of
+    `minted_nodes_new` through `Op.wf`), not proved. -/
+def Modify.algBelow (u : Modify) : Prop :=
+  match u.wmode with
+  | .alg _ _ => ∀ (c : Cfg) (s : St), FreshInv s → ∀ μ ∈ u.solutions c s, BBelow s.next μ
+  | _ => True
+
+theorem bbelow_solutions (c : Cfg) (u : Modify) (ha : u.algBelow) {s : St} (h : FreshInv s) :
+    ∀ μ ∈ u.solutions c s, BBelow s.next μ := by
+  cases hw : u.wmode with
+  | alg n P => simp only [Modify.algBelow, hw] at ha; exact ha c s h
+  | plain => exact bbelow_solutions_bgp c u (by simp [hw]) h
+  | union bs => exact bbelow_solutions_bgp c u (by simp [hw]) h
+  | proj vs => exact bbelow_solutions_bgp c u (by simp [hw]) h
 
 /-! ### templates -/
 
@@ -346,7 +366,7 @@ theorem freshInv_copyInto {s : St} (h : FreshInv s) (a b : GName) : FreshInv (s.
 /-- the request text does not mention minted nodes -/
 def Op.wf : Op → Prop
   | .insertData q | .deleteData q => tplWf q
-  | .modify u => tplWf (u.del.getD []) ∧ tplWf (u.ins.getD [])
+  | .modify u => tplWf (u.del.getD []) ∧ tplWf (u.ins.getD []) ∧ u.algBelow
   | _ => True
 
 theorem freshInv_evalOp (c : Cfg) (op : Op) (hw : op.wf) (s s' : St) (h : FreshInv s)
@@ -368,7 +388,7 @@ theorem freshInv_evalOp (c : Cfg) (op : Op) (hw : op.wf) (s s' : St) (h : FreshI
       simp only
       rw [evalModify_eq_twoPass]
       unfold twoPass
-      have hsol := bbelow_solutions c u h
+      have hsol := bbelow_solutions c u hw.2.2 h
       have h1 : FreshInv ((u.solutions c s).foldl (deleteOpt u.del u.withG) s) := by
         cases hd : u.del with
         | none => simpa [deleteOpt_none, foldl_id_state] using h
@@ -380,7 +400,7 @@ theorem freshInv_evalOp (c : Cfg) (op : Op) (hw : op.wf) (s s' : St) (h : FreshI
         exact ⟨h1, by rw [n1]; exact Nat.le_refl _⟩
       | some tpl =>
         rw [insertOpt_some]
-        have hwi : tplWf tpl := by have := hw.2; rw [hi] at this; exact this
+        have hwi : tplWf tpl := by have := hw.2.1; rw [hi] at this; exact this
         refine ⟨freshInv_foldl_insert tpl hwi _ _ hsol h1 (by rw [n1]; exact Nat.le_refl _), ?_⟩
         rw [foldl_insertSolution_next, n1]; omega
     | clear sl t =>
